@@ -319,10 +319,10 @@ cdef class LinkedListNNPS(NNPS):
         self.ncells_per_dim.data[1] = ncy
         self.ncells_per_dim.data[2] = ncz
 
-        # total number of cells
-        _ncells = ncx
-        if dim == 2: _ncells = ncx * ncy
-        if dim == 3: _ncells = ncx * ncy * ncz
+        # total number of cells. Cell ids are flattened over all three
+        # directions whatever the value of dim (a lone particle in 1D or
+        # 2D still gets a padded box in y and z).
+        _ncells = ncx * ncy * ncz
         return _ncells
 
     @cython.boundscheck(False)
